@@ -355,6 +355,8 @@ struct Gen {
     static const char* kDeco[] = {"", " sp", "$d", "'q", ";sc", "*", "&a", "\"dq", "(p)", "\\b", "~t", "#h", "\xc3\xa9", "a:b", "%p", ">r"};
     int k = (int)(Hash64(base, (uint64_t)name_style * 131 + salt) % 24);
     if (k == 16 || k == 17) return (k == 16 ? "'" : "\"") + base;   // a name that BEGINS with a quote
+    // control bytes are legal in a manifest too (everything but NUL and newline); a depfile cannot spell them
+    if (k >= 18 && k <= 20 && !(Has(F_DEPFILE) || Has(F_DEPSGCC))) { static const char* kCtl[] = {"\x0bvt", "\x01c", "\x7f" "d"}; return base + kCtl[k - 18]; }
     if (k >= 16) return base;
     // depfile syntax has no spelling for ; * > - a compiler could not report such a name, so
     // scenarios with depfiles use the escapable ones (space, #, $) instead
